@@ -301,23 +301,62 @@ def initial_state(kind, dims, seed):
     return rand_dm(D, 2)
 
 
+def time_scales(dims, t1, t2):
+    N = len(dims)
+    l1 = t1 if isinstance(t1, list) else [t1] * N
+    l2 = t2 if isinstance(t2, list) else [t2] * N
+    return sorted(float(x) for x in l1 + l2 if x is not None)
+
+
+def time_grid(dims, t1, t2, fracs=(0.3, 1.0), last=2.5):
+    """evaluation times scaled to EVERY relaxation time of the register (scales closer than a factor 10 share their
+    points), so that the decay of a long-lived subsystem next to a short-lived one is actually observed"""
+    sc = time_scales(dims, t1, t2) or [1.0]
+    kept = []
+    for x in sc:
+        if not kept or x > 10 * kept[-1]:
+            kept.append(x)
+    times = [0.0]
+    for x in kept:
+        times += [x * f for f in fracs]
+    times.append(last * sc[-1])
+    return sorted(set(times))
+
+
+def solver_options(dims, t1, t2):
+    """QuTiP's default integrator, unless the relaxation times span more than 3 decades (stiff): then lsoda"""
+    sc = time_scales(dims, t1, t2) or [1.0]
+    opts = {"atol": 1e-12, "rtol": 1e-10, "nsteps": 200000}
+    if sc[-1] > 1e3 * sc[0]:
+        opts["method"] = "lsoda"
+    return opts
+
+
+TIDY_FLOOR = 1e-12
+
+
+def tidyup_guard(rates):
+    """QuTiP removes every matrix element below settings.core['auto_tidyup_atol'] = 1e-14 (ABSOLUTE) from the Liouvillian it
+    builds, so qutip.mesolve at default settings silently loses Lindblad rates below ~2e-14 per time unit (t1 > 5e13 time
+    units does not decay at all) - a convention of the solver, outside the code under test.  When a squared prefactor of
+    the case lies below TIDY_FLOOR the dynamics is integrated with auto_tidyup switched off (and the detail says so)."""
+    import contextlib
+    qutip = _impl()[0]
+    small = [r for r in rates if 0 < r < TIDY_FLOOR]
+    return (qutip.CoreOptions(auto_tidyup=False), True) if small else (contextlib.nullcontext(), False)
+
+
 def mesolve_states(dims, t1, t2, rho0, times):
     """the implementation: idle Processor with t1/t2 -> get_qobjevo(noisy=True) -> qutip.mesolve"""
     qutip, _, Processor = _impl()
     N = len(dims)
-    p = Processor(N, dims=list(dims), t1=py_T(t1), t2=py_T(t2))
-    H, c_ops = p.get_qobjevo(noisy=True)
-    r0 = qutip.Qobj(rho0, dims=[list(dims), list(dims)])
-    r = qutip.mesolve(H, r0, times, c_ops=c_ops, options={"atol": 1e-12, "rtol": 1e-10, "nsteps": 200000})
+    guard, _ = tidyup_guard([x for pr in spec_rates(dims, t1, t2) for x in pr])
+    with guard:
+        p = Processor(N, dims=list(dims), t1=py_T(t1), t2=py_T(t2))
+        H, c_ops = p.get_qobjevo(noisy=True)
+        r0 = qutip.Qobj(rho0, dims=[list(dims), list(dims)])
+        r = qutip.mesolve(H, r0, times, c_ops=c_ops, options=solver_options(dims, t1, t2))
     return [(st if st.isoper else qutip.ket2dm(st)).full() for st in r.states]
-
-
-def time_grid(dims, t1, t2):
-    N = len(dims)
-    l1 = t1 if isinstance(t1, list) else [t1] * N
-    l2 = t2 if isinstance(t2, list) else [t2] * N
-    scale = min([float(x) for x in l1 + l2 if x is not None], default=1.0)
-    return [0.0] + [scale * f for f in (0.3, 1.0, 2.5)]
 
 
 def parse_model(ans):
@@ -357,16 +396,41 @@ def dyadic(rng, lo_exp=-3, hi_exp=6, bits=10):
     return Fraction(rng.randint(2 ** (bits - 1), 2 ** bits - 1), 2 ** bits) * Fraction(2) ** rng.randint(lo_exp, hi_exp)
 
 
-def pair(rng, rel):
-    """(t1, t2) exact dyadic fractions in the requested relation"""
-    t1 = dyadic(rng)
+def snap(f):
+    """the float nearest to f, as an exact fraction: model and implementation then see the very same number"""
+    return Fraction(float(f))
+
+
+def magnitude(rng):
+    """a factor that spreads the relaxation times over 1e-6 ... 1e12 time units (the property quantifies over ALL
+    positive times; a time unit of ns with t1 ~ s gives 1e9)"""
+    r = rng.random()
+    if r < 0.35:
+        return Fraction(1)
+    if r < 0.7:
+        return Fraction(10) ** rng.randint(-6, 12)
+    return Fraction(2) ** rng.randint(-20, 40)
+
+
+def pair(rng, rel, mag=None):
+    """(t1, t2) exactly representable as floats, in the requested relation, at a magnitude between 1e-6 and 1e12"""
+    m = magnitude(rng) if mag is None else mag
+    t1 = snap(dyadic(rng) * m)
     if rel == "boundary":
         return t1, 2 * t1
     if rel == "near":
-        return t1, 2 * t1 - t1 * Fraction(1, 2 ** rng.randint(6, 9))
+        # just inside the boundary: relative distance 2^-6 ... 2^-9, sometimes down to 2^-30
+        k = rng.randint(6, 9) if rng.random() < 0.7 else rng.randint(10, 30)
+        t2 = snap(2 * t1 - t1 * Fraction(1, 2 ** k))
+        assert 0 < t2 < 2 * t1
+        return t1, t2
     if rel == "outside":
-        return t1, 2 * t1 + t1 * Fraction(rng.randint(1, 2 ** 8), 2 ** 8)
-    return t1, t1 * Fraction(rng.randint(1, 2 ** 9 - 1), 2 ** 8)      # inside: 0 < t2 < 2 t1
+        t2 = snap(2 * t1 + t1 * Fraction(rng.randint(1, 2 ** 8), 2 ** 8))
+        assert t2 > 2 * t1
+        return t1, t2
+    t2 = snap(t1 * Fraction(rng.randint(1, 2 ** 9 - 1), 2 ** 8))      # inside: 0 < t2 < 2 t1
+    assert 0 < t2 < 2 * t1
+    return t1, t2
 
 
 SOL_TOL = 5e-8     # mesolve is run with atol 1e-12 / rtol 1e-10 (measured worst deviation ~6e-10)
@@ -430,7 +494,8 @@ class C15(PropertyCheck):
                   "correspondence (targets, operator kind, dimension, verdict; squared prefactor to 1e-12) and by comparing "
                   "qutip.mesolve's ρ(t) on the implementation's (H, c_ops) with the explicit solution evaluated with the model's "
                   "prefactors (1-3 subsystems of dimension 2/3, product / entangled / GHZ initial states, boundary, t1-only, "
-                  "t2-only, lists and scalars; 5e-8).")
+                  "t2-only, lists and scalars; relaxation times from 1e-6 to 1e12 time units, mixed per subsystem, evaluated "
+                  "at times scaled to every t1/t2; 5e-8).")
     level_note = ("partial: proved for the idle processor with relaxation noise: rates, validation, the solution of the master "
                   "equation, its uniqueness (single subsystem), validity of evolved states (single qubit / qutrit; qubit registers "
                   "with arbitrary joint states; product states of any two subsystems). NOT proved: that qutip.mesolve returns this "
@@ -449,11 +514,14 @@ class C15(PropertyCheck):
         "positivity under control pulses / other noise models (complete positivity of general Lindblad evolution): not proved, numerical support only",
         "Pulse.add_lindblad_noise / get_noisy_qobjevo / expand_operator place each element on its target, i.e. as 1⊗..⊗A⊗..⊗1 (C08; re-checked numerically here)",
         "the numpy transcription of relaxSol2 / relaxSol3 / regSol in py/props/c15.py (sol2_np, sol3_np, explicit_state) equals the Lean definitions (by reading; 25 lines)",
+        "QuTiP removes Liouvillian entries below settings.core['auto_tidyup_atol'] = 1e-14 (absolute): for squared prefactors below 1e-12 per time unit the oracle integrates with auto_tidyup off (solver convention outside the code under test; prefactors themselves are compared at full strength)",
         "py/props/c15.py (harness; exceptions canonicalised to {invalidT,t2gt2t1,zerodiv,index})",
     ]
     assumptions = ["relaxation times are Python floats or ints (numpy scalars behave identically after the patch; sampled)",
                    "idle processor (no control pulses) for the decay laws"]
-    rule = ("case = (dims over {2,3}^N, N<=3; t1/t2 each None | scalar | per-subsystem list with optional None entries; relation "
+    rule = ("relaxation times span 1e-6 ... 1e12 time units (10-bit dyadic mantissa x 10^k or 2^e, magnitudes independent per "
+            "subsystem, each value exactly a float); "
+            "case = (dims over {2,3}^N, N<=3; t1/t2 each None | scalar | per-subsystem list with optional None entries; relation "
             "t2 vs 2 t1 in {inside, near-boundary, boundary, outside}; explicit targets; entry point RelaxationNoise / "
             "process_noise / Processor; extra noise objects); exact dyadic times; non-trivial = at least one time given; "
             "malformed stream = non-positive scalars, wrong-length lists, non-positive list entries, out-of-range targets; "
@@ -516,13 +584,19 @@ class C15(PropertyCheck):
                     return
                 continue
             scale = abs(float(mr))
-            if mk == "num":
-                # 1/t2 - 1/(2 t1) cancels: the float error is relative to 1/t2, not to the difference
-                ts = [x for x in ([t2] if not isinstance(t2, list) else t2) if x]
-                for s in specs:
-                    if s[0] == "R":
-                        ts += [x for x in ([s[2]] if not isinstance(s[2], list) else s[2]) if x]
-                scale += max([2 / float(x) for x in ts], default=0.0)
+            if mk == "num" and len(mt) == 1:
+                # 1/t2 - 1/(2 t1) cancels: the float error is relative to 1/t2 OF THIS SUBSYSTEM, not to the difference.
+                # (Relative band only - no absolute term: rates of 1e-12 are compared as strictly as rates of 1e6.)
+                q = mt[0]
+
+                def entry(T):
+                    if T is None:
+                        return None
+                    if isinstance(T, list):
+                        return T[q] if q < len(T) else None
+                    return T
+                ts = [entry(t2)] + [entry(sp[2]) for sp in specs if sp[0] == "R" and (sp[3] is None or q in sp[3])]
+                scale += max([2 / float(x) for x in ts if x], default=0.0)
             if abs(ic - float(mr)) > 1e-12 * scale:
                 res.disagree(inp, model, str(impl_str), f"squared prefactor {ic!r} vs exact {mr} = {float(mr)!r}", wit)
                 return
@@ -563,9 +637,10 @@ class C15(PropertyCheck):
                              f"mesolve's state differs from the explicit solution by {err:.3g}", wit)
                 return
 
-    def _spec_variants(self, rng, N, rel):
-        """(t1, t2) argument shapes for N subsystems with every present pair in relation `rel`"""
-        pairs = [pair(rng, rel) for _ in range(N)]
+    def _spec_variants(self, rng, N, rel, mag=None):
+        """(t1, t2) argument shapes for N subsystems with every present pair in relation `rel`; the magnitudes of the
+        subsystems are independent (1e-6 ... 1e12) unless a common `mag` is given"""
+        pairs = [pair(rng, rel, mag) for _ in range(N)]
         a, b = pairs[0]
         yield "s/s", a, b
         yield "s/none", a, None
@@ -703,12 +778,16 @@ class C15(PropertyCheck):
                 return True, f"valid relaxation times rejected: {type(raised).__name__}: {raised}"
             l1 = t1 if isinstance(t1, list) else [t1] * N
             l2 = t2 if isinstance(t2, list) else [t2] * N
-            scale = min([float(x) for x in l1 + l2 if x is not None], default=1.0)
-            times = [0.0] + [scale * f for f in (0.25, 1.0, 2.5)]
+            # times scaled to every relaxation time of the register (not only the shortest one)
+            times = time_grid(dims, t1, t2, fracs=(0.25, 1.0))
             plus = [(qutip.basis(d, 0) + qutip.basis(d, 1)).unit() for d in dims]
             rho0 = qutip.ket2dm(qutip.tensor(plus))
+            guard, off = tidyup_guard([x for pr in spec_rates(dims, t1, t2) for x in pr])
             try:
-                r = qutip.mesolve(H, rho0, times, c_ops=c_ops, options={"atol": 1e-11, "rtol": 1e-9, "nsteps": 100000})
+                with guard:
+                    if off:
+                        H, c_ops = Processor(N, dims=list(dims), t1=py_T(t1), t2=py_T(t2)).get_qobjevo(noisy=True)
+                    r = qutip.mesolve(H, rho0, times, c_ops=c_ops, options=solver_options(dims, t1, t2))
             except Exception as e:
                 return True, f"the master equation of the returned (H, c_ops) cannot be integrated: {type(e).__name__}: {str(e)[:80]}"
             g1 = [0.0 if l1[q] is None else 1 / float(l1[q]) for q in range(N)]
@@ -716,7 +795,8 @@ class C15(PropertyCheck):
             bad = self._decay_check(dims, times, r.states, g1, g2)
             if bad:
                 return True, bad
-            return False, "decay laws, trace, Hermiticity and positivity hold at 4 times"
+            return False, (f"decay laws, trace, Hermiticity and positivity hold at {len(times)} times"
+                           + (" (QuTiP auto_tidyup off: a rate lies below its absolute 1e-14 cut-off)" if off else ""))
 
     def _solution(self, ctx, w):
         """the property's decay laws as the full state: mesolve's rho(t) from an arbitrary initial density matrix equals
@@ -829,32 +909,35 @@ class C15(PropertyCheck):
             return True, f"valid processor set-up raised {type(e).__name__}: {str(e)[:100]}"
         opts = {"atol": 1e-11, "rtol": 1e-9, "nsteps": 100000}
         # one more, cheap, request at the end: what the calls left behind must not change the next answer
-        for k, call in enumerate(calls + ["pulses"], 1):
-            states = None
-            try:
-                if call == "pulses":
-                    els = [canon_element(e, user) for e in p.get_noisy_pulses(device_noise=True)[-1].lindblad_noise]
-                    if len(els) != n_ops:
-                        return True, f"call {k} (get_noisy_pulses): {len(els)} Lindblad operators, specified {n_ops}"
-                    for q in range(N):
-                        dsum = sum(c for tg, kd, _, c, _ in els if kd == "destroy" and tg == [q])
-                        nsum = sum(c for tg, kd, _, c, _ in els if kd == "num" and tg == [q])
-                        if abs(dsum - d_rate[q]) > 1e-9 * (1 + d_rate[q]) or abs(nsum - n_rate[q]) > 1e-9 * (1 + n_rate[q] + g2[q]):
-                            return True, (f"call {k} (get_noisy_pulses): subsystem {q} relaxes with rate {dsum:.9g} (specified "
-                                          f"{d_rate[q]:.9g}), dephasing prefactor^2 {nsum:.9g} (specified {n_rate[q]:.9g})")
-                elif call == "qobjevo":
-                    H, c_ops = p.get_qobjevo(noisy=True)
-                    if len(c_ops) != n_ops:
-                        return True, f"call {k} (get_qobjevo): {len(c_ops)} collapse operators, specified {n_ops}"
-                    states = qutip.mesolve(H, rho0, times, c_ops=c_ops, options=dict(opts)).states
-                else:
-                    states = p.run_state(rho0, tlist=times, options=dict(opts)).states
-            except Exception as e:
-                return True, f"call {k} ({call}) raised {type(e).__name__}: {str(e)[:100]}"
-            if states is not None:
-                bad = self._decay_check(dims, times, states, g1, g2)
-                if bad:
-                    return True, f"call {k} ({call}) of the same processor: " + bad
+        guard, _ = tidyup_guard(d_rate + n_rate)
+        with guard:
+            for k, call in enumerate(calls + ["pulses"], 1):
+                states = None
+                try:
+                    if call == "pulses":
+                        els = [canon_element(e, user) for e in p.get_noisy_pulses(device_noise=True)[-1].lindblad_noise]
+                        if len(els) != n_ops:
+                            return True, f"call {k} (get_noisy_pulses): {len(els)} Lindblad operators, specified {n_ops}"
+                        for q in range(N):
+                            dsum = sum(c for tg, kd, _, c, _ in els if kd == "destroy" and tg == [q])
+                            nsum = sum(c for tg, kd, _, c, _ in els if kd == "num" and tg == [q])
+                            # relative bands only (no absolute term): a rate of 1e-12 is checked as strictly as one of 1e6
+                            if abs(dsum - d_rate[q]) > 1e-9 * d_rate[q] or abs(nsum - n_rate[q]) > 1e-9 * (n_rate[q] + g2[q]):
+                                return True, (f"call {k} (get_noisy_pulses): subsystem {q} relaxes with rate {dsum:.9g} (specified "
+                                              f"{d_rate[q]:.9g}), dephasing prefactor^2 {nsum:.9g} (specified {n_rate[q]:.9g})")
+                    elif call == "qobjevo":
+                        H, c_ops = p.get_qobjevo(noisy=True)
+                        if len(c_ops) != n_ops:
+                            return True, f"call {k} (get_qobjevo): {len(c_ops)} collapse operators, specified {n_ops}"
+                        states = qutip.mesolve(H, rho0, times, c_ops=c_ops, options=dict(opts)).states
+                    else:
+                        states = p.run_state(rho0, tlist=times, options=dict(opts)).states
+                except Exception as e:
+                    return True, f"call {k} ({call}) raised {type(e).__name__}: {str(e)[:100]}"
+                if states is not None:
+                    bad = self._decay_check(dims, times, states, g1, g2)
+                    if bad:
+                        return True, f"call {k} ({call}) of the same processor: " + bad
         return False, f"{len(calls)} calls (+1 final get_noisy_pulses): same {n_ops} collapse operators with the specified rates, same decay laws"
 
     @staticmethod
@@ -950,8 +1033,13 @@ class C15(PropertyCheck):
     def _history_witness(self, rng):
         dims = [rng.choice([2, 2, 3]) for _ in range(rng.randint(1, 2))]
         N = len(dims)
+        two = [q for q in range(N) if dims[q] == 2]
+        kinds = [rng.choice("CCDR") for _ in range(rng.randint(0, 2))]
+        # one common magnitude (1e-6 ... 1e12) for all relaxation sources of the history; the user operator c*sigma_z of a
+        # DecoherenceNoise has a fixed absolute strength, so histories with one stay at magnitude 1
+        mag = Fraction(1) if ("D" in kinds and two) else magnitude(rng)
         rel = rng.choice(["inside", "inside", "boundary", "near"])
-        ps = [pair(rng, rel) for _ in range(N)]
+        ps = [pair(rng, rel, mag) for _ in range(N)]
         shape = rng.choice(["s/s", "s/none", "none/s", "l/l"])
         if shape == "s/s":
             t1, t2 = ps[0]
@@ -962,13 +1050,11 @@ class C15(PropertyCheck):
         else:
             t1, t2 = [x[0] for x in ps], [x[1] for x in ps]
         specs = []
-        two = [q for q in range(N) if dims[q] == 2]
-        for _ in range(rng.randint(0, 2)):
-            k = rng.choice("CCDR")
+        for k in kinds:
             if k == "D" and two:
                 specs.append(("D", 1, [rng.choice(two)], False))
             elif k == "R":
-                a, b = pair(rng, rng.choice(["inside", "boundary"]))
+                a, b = pair(rng, rng.choice(["inside", "boundary"]), mag)
                 specs.append(("R", rng.choice([a, None]), b, sorted(rng.sample(range(N), rng.randint(1, N)))))
             else:
                 specs.append(("C",))
@@ -991,6 +1077,12 @@ class C15(PropertyCheck):
                  {"kind": "decay", "dims": [2], "t1": "1", "t2": "3/2"},
                  {"kind": "decay", "dims": [3], "t1": "2", "t2": "1"},
                  {"kind": "decay", "dims": [2, 3], "t1": ["1", "2"], "t2": ["2", "1"]},
+                 {"kind": "decay", "dims": [2], "t1": "2000000000", "t2": "1000000000"},
+                 {"kind": "decay", "dims": [2, 2], "t1": ["1", "100000000"], "t2": ["1", "100000000"]},
+                 {"kind": "solution", "dims": [2, 3], "t1": ["1/1000000", "2000000000000"], "t2": ["1/1000000", "1000000000000"],
+                  "state": "entangled", "seed": 7},
+                 {"kind": "history", "dims": [2], "t1": "2000000000", "t2": "1000000000", "noises": [], "calls": ["pulses", "qobjevo"],
+                  "drive": False},
                  {"kind": "solution", "dims": [2], "t1": "1", "t2": "2", "state": "entangled", "seed": 1},
                  {"kind": "solution", "dims": [2], "t1": "1", "t2": "3/2", "state": "entangled", "seed": 2},
                  {"kind": "solution", "dims": [3], "t1": "2", "t2": "1", "state": "entangled", "seed": 3},
@@ -1020,7 +1112,9 @@ class C15(PropertyCheck):
                 yield w, d
 
     def oracle_always(self, ctx):
-        ws = [{"kind": "decay", "dims": [2], "t1": "1", "t2": "2"}]
+        ws = [{"kind": "decay", "dims": [2], "t1": "1", "t2": "2"},
+              {"kind": "decay", "dims": [2], "t1": "2000000000", "t2": "1000000000"},
+              {"kind": "solution", "dims": [2, 2], "t1": ["1", "100000000"], "t2": ["1", "100000000"], "state": "ghz", "seed": 8}]
         ws += [self._decay_witness(ctx.rng) for _ in range(12 if ctx.thorough else 5)]
         ws += [{"kind": "solution", "dims": [2, 2], "t1": ["1", "2"], "t2": ["2", "1"], "state": "ghz", "seed": 4}]
         ws += [self._solution_witness(ctx.rng) for _ in range(12 if ctx.thorough else 5)]
